@@ -478,6 +478,41 @@ func (x *runner) runStanza(in input) {
 			x.add("CUnmarshal "+k.coq+" "+jidTable([]*node{rootM})+" ("+coqTree(rootM)+") "+optCoq(eM == nil, vM.coq()), in, "xml.Unmarshal(marshal path)")
 		}
 	}
+	// the same attribute names (name space included) on both paths, and every
+	// decoder reads every encoding to the same value: the struct decoder accepts
+	// an attribute of any name space for a tag without one, so only the start
+	// element parser New* and the names themselves show a tag that lost its name space
+	if rootM != nil {
+		x.attrNamesOracle(in, pre, st, rootM, defined && clean && allClean(v.To, v.From))
+	}
+	for _, enc := range []struct {
+		path string
+		root *node
+	}{{"token-path", rootTok}, {"marshal-path", rootM}} {
+		if enc.root == nil {
+			continue
+		}
+		rst := startOfNode(enc.root)
+		var nv stv
+		var nerr error
+		if p := hx.Catch(func() { nv, nerr = k.newFrom(rst) }); p != "" {
+			x.res.Fail(pre+"/new/panic", p, in)
+			continue
+		}
+		x.add("CNew "+k.coq+" "+jidTable([]*node{enc.root})+" "+coqName(rst.Name.Space, rst.Name.Local)+" "+coqXMLAttrs(rst.Attr)+" "+optCoq(nerr == nil, nv.coq()), in, "New("+enc.path+" re-parsed)")
+		if !(defined && clean && allClean(v.To, v.From)) {
+			continue
+		}
+		w := want
+		if enc.path == "marshal-path" {
+			w.NS = nv.NS // the element name space on this path is the known finding, reported above
+		}
+		if nerr != nil {
+			x.res.Fail(pre+"/two-paths/cross-decode/error", fmt.Sprintf("New%s on the %s encoding fails: %v", k.name, enc.path, nerr), in)
+		} else if nv != w {
+			x.res.Fail(pre+"/two-paths/cross-decode/"+stvDiff(nv, w), fmt.Sprintf("New%s on the %s encoding = %+v; want %+v", k.name, enc.path, nv, w), in)
+		}
+	}
 	if defined && okT && okM {
 		switch {
 		case eT != nil || eM != nil:
@@ -507,6 +542,63 @@ func (x *runner) runStanza(in input) {
 	// error reply
 	if s.Err != nil {
 		x.runErrorReply(in, k, v)
+	}
+}
+
+func startOfNode(n *node) xml.StartElement {
+	st := xml.StartElement{Name: xml.Name{Space: string(n.Space), Local: string(n.Local)}}
+	for _, a := range n.Attrs {
+		st.Attr = append(st.Attr, xml.Attr{Name: xml.Name{Space: string(a.Space), Local: string(a.Local)}, Value: string(a.Value)})
+	}
+	return st
+}
+
+// stvDiff names the first field in which two stanza values differ (finding keys).
+func stvDiff(a, b stv) string {
+	switch {
+	case a.NS != b.NS || a.Local != b.Local:
+		return "name"
+	case a.ID != b.ID:
+		return "id"
+	case a.To != b.To || a.From != b.From:
+		return "addresses"
+	case a.Lang != b.Lang:
+		return "lang"
+	}
+	return "type"
+}
+
+// attrNamesOracle: every attribute with a value that xml.Marshal writes is, name
+// space included, an attribute StartElement writes with the same value, and
+// the other way round (xmlns aside: the element name space is the known finding).
+func (x *runner) attrNamesOracle(in input, pre string, st xml.StartElement, rootM *node, strict bool) {
+	if !strict {
+		return
+	}
+	type an struct{ space, local string }
+	tok := map[an]string{}
+	for _, a := range st.Attr {
+		if a.Value != "" {
+			tok[an{a.Name.Space, a.Name.Local}] = a.Value
+		}
+	}
+	mar := map[an]string{}
+	for _, a := range rootM.Attrs {
+		if a.Value != "" && !(a.Space == "" && a.Local == "xmlns") {
+			mar[an{string(a.Space), string(a.Local)}] = string(a.Value)
+		}
+	}
+	for n, v := range mar {
+		if tv, ok := tok[n]; !ok || tv != v {
+			x.res.Fail(pre+"/two-paths/attribute-names-differ", fmt.Sprintf("xml.Marshal writes attribute {%s}%s=%q, StartElement writes %v", n.space, n.local, v, st.Attr), in)
+			return
+		}
+	}
+	for n, v := range tok {
+		if mv, ok := mar[n]; !ok || mv != v {
+			x.res.Fail(pre+"/two-paths/attribute-names-differ", fmt.Sprintf("StartElement writes attribute {%s}%s=%q, xml.Marshal writes %v", n.space, n.local, v, rootM.Attrs), in)
+			return
+		}
 	}
 }
 
